@@ -7,7 +7,7 @@ ID=$1; X=$2; shift 2
 PROPS=${@:-$ID}
 export GOFLAGS=-mod=mod GOPROXY=off GOSUMDB=off GOTOOLCHAIN=local
 WT=/tmp/mut/$ID; M=$WT/MUTATION
-OUT=/verif/seeded/$ID-$X; mkdir -p $OUT
+OUT=/verif/seeded/${NAME:-$ID-$X}; mkdir -p $OUT
 cd $WT && git checkout -q -- . && git clean -fdq -e MUTATION -e '*.diff' >/dev/null 2>&1
 demo_path=$(python3 -c "import json;print(json.load(open('$M/$X.meta.json'))['demo_path'])")
 demo_run=$(python3 -c "import json;print(json.load(open('$M/$X.meta.json'))['demo_run'])")
